@@ -54,6 +54,9 @@ Step(s, e, i) ==
     [] e.ev = "derr" -> Rep([s EXCEPT !.at = i], V(IF e.panic THEN "panic" ELSE "error-on-well-formed-stream", [s EXCEPT !.at = i], [msg |-> e.msg]))
     [] e.ev = "hang" -> Rep([s EXCEPT !.at = i], V("no-end-of-stream", [s EXCEPT !.at = i], [calls |-> e.calls]))
     [] e.ev = "eof" -> OnEOF(s, i)
+    \* one PID silent for `between` packets of another PID with its last unit pending, one unit whose two packets lie that far apart (counted)
+    [] e.ev = "longgap" -> RepIf(e.n100 # 1 \/ e.n102 # 1 \/ e.n101 # e.between \/ e.errs # 0 \/ ~e.eof, [s EXCEPT !.at = i],
+                                  V("not-delivered", [s EXCEPT !.at = i], [pids |-> {256, 258}, first |-> [pid |-> 256, k |-> "pes", unit |-> e.n100, n |-> e.n102]]))
     [] OTHER -> s
 
 Next == /\ l <= Len(Trace)
